@@ -101,6 +101,8 @@ def _step(objs, op, guard, box):
     if guard:   # dry run of the generator: same values, but a runaway consumer is stopped
       return _inplace(objs, s, s.append(_guarded(list(op[2][1]), box)))
     return _inplace(objs, s, s.append(*op[2][1]))
+  if k == "appendobj":
+    return _inplace(objs, s, s.append(objs[op[2]]))
   if k == "map":
     return _inplace(objs, s, s.map(FUNS[op[2][0]](op[2][1])))
   if k == "filter":
@@ -168,6 +170,10 @@ def alphabet(kinds, counts, rich=True):
       if kd != ("h", 0):   # thub(exhausted hub) raises IndexError inside __init__ and then recurses in __del__ (slow)
         for n in (0, 1, 2): yield ["thub", i, n]
       for n in (0, 2): yield ["tee", i, n]
+      if kd[0] == "s":
+        for j, kj in enumerate(kinds):
+          if j != i and kj[0] != "d":
+            yield ["appendobj", i, j]
   if rich:
     yield ["thubval", 5, 2]
     yield ["teeval", 5, 3]
@@ -179,6 +185,13 @@ def advance(op, kinds):
   if k in ("thubval", "teeval", "next"):
     return kinds
   i = op[1]; kd = kinds[i]; kinds = list(kinds)
+  if k == "appendobj":                             # Stream(obj_j): a hub loses a use, a Stream is handed over
+    kj = kinds[op[2]]
+    if kj[0] == "s":
+      kinds[op[2]] = ("d",)
+    elif kj[0] == "h" and kj[1] > 0:
+      kinds[op[2]] = ("h", kj[1] - 1)
+    return kinds
   if k == "tee" and op[2] == 0:
     return kinds                                   # itertools.tee(x, 0) does not even call iter(x)
   hub = kd[0] == "h"
@@ -229,11 +242,38 @@ def finish(pool, ops, tags):
 def random_op(rng, kinds, counts):
   ops = list(alphabet(kinds, [rng.choice(counts), ["int", rng.randrange(-2, 9)],
                               ["flt", rng.randrange(-3, 19), rng.choice([2, 4])]]))
-  plain = [o for o in ops if o[0] in ("next", "take", "peek", "copy", "use")]
+  plain = [o for o in ops if o[0] in ("next", "take", "peek", "copy", "use", "appendobj")]
   return rng.choice(plain if plain and rng.random() < 0.5 else ops)
 
 
+def gen_hubappend(tier):
+  """a hub is appended to a stream; its remaining uses are requested before / after the
+  appended stream reaches the appended part (the append itself is one of the n uses)"""
+  mid = [["appendobj", 0, 2], ["use", 2], ["take", 0, ["int", 1]], ["take", 0, ["int", 2]],
+         ["peek", 2, ["int", 2]], ["copy", 2], ["peek", 0, ["int", 3]]]
+  maxlen = 3 if tier == "quick" else 4
+  for own in ([0], []):
+    for tail in (["fin", [1, 2, 3]], ["cyc", [4, 5]]):
+      for n in (0, 1, 2):
+        for ln in range(1, maxlen + 1):
+          for seq in itertools.product(mid, repeat=ln):
+            if ["appendobj", 0, 2] not in seq:
+              continue
+            ops, kinds = [["thub", 1, n]], advance(["thub", 1, n], [("s",), ("s",)])
+            for op in seq:
+              ops.append(op); kinds = advance(op, kinds)
+            ops.append(["use", 2]); kinds = advance(ops[-1], kinds)
+            ops.append(["take", 0, ["int", 6]])
+            for i, kd in enumerate(kinds):
+              if kd[0] == "s" and i != 0:
+                ops.append(["take", i, ["int", 4]])
+            ops.append(["use", 2])
+            yield finish([["fin", own], tail], ops, ["hubappend", "n=%d" % n])
+
+
 def gen_hist(tier, rng):
+  for c in gen_hubappend(tier):
+    yield c
   # all pairs of operations on each single-source pool (quick: a seeded 30 % of them)
   for p in POOL:
     for ops in histories(2, [("s",)], COUNTS):
@@ -295,6 +335,8 @@ def lit_op(op):
     return "OFilter %s %s" % (L.nat(op[1]), "PEven" if op[2][0] == "even" else "(PGt %s)" % L.z(op[2][1]))
   if k in ("thub", "tee"):
     return "%s %s %s" % (name, L.nat(op[1]), L.nat(op[2]))
+  if k == "appendobj":
+    return "OAppendObj %s %s" % (L.nat(op[1]), L.nat(op[2]))
   return "%s %s %s" % ({"thubval": "OThubVal", "teeval": "OTeeVal"}[k], L.z(op[1]), L.nat(op[2]))
 
 
